@@ -937,3 +937,74 @@ Proof.
   - intros s l [G S]. split; [now apply GInv_step | now apply Sim_step].
   - split; [apply GInv_init|]. exists []. split; [reflexivity|]. split; [reflexivity|]. apply MRel_init.
 Qed.
+
+(* ---------- final checks ---------- *)
+Lemma check_arbs_ok : forall la lm k0,
+  length la = length lm ->
+  (forall j a ma, nth_error la j = Some a -> nth_error lm j = Some ma ->
+     is_prefix (tids (alog a)) (m_sent ma) = true /\
+     (forall e, In e (alog a) -> e_thr e = 2 + (k0 + j) /\ e_sys e = 0)) ->
+  check_arbs k0 (map alog la) lm = true.
+Proof.
+  induction la as [|a la IH]; intros [|ma lm] k0 L H; cbn in *; try discriminate; auto.
+  destruct (H 0 a ma eq_refl eq_refl) as [H1 H2]. rewrite H1. cbn.
+  apply andb_true_iff. split.
+  - apply forallb_forall. intros e He. destruct (H2 e He) as [A B]. rewrite A, B, Nat.add_0_r, !Nat.eqb_refl. reflexivity.
+  - apply IH; [lia|]. intros j b mb Hb Hm. destruct (H (S j) b mb Hb Hm) as [A B]. split; auto.
+    intros e He. destruct (B e He) as [B1 B2]. split; auto. rewrite B1. lia.
+Qed.
+
+Lemma retv_eqb_refl : forall v, retv_eqb v v = true.
+Proof. intros [c| |]; cbn; auto. apply Z.eqb_refl. Qed.
+
+Lemma started_any_spec : forall userun s i, started_any (observable_log userun s) i = true <-> started_in s i.
+Proof.
+  intros. unfold started_any, started_in, observable_log. cbn. rewrite existsb_exists. split.
+  - intros (l & H1 & H2). apply in_map_iff in H1 as (a & <- & Ha). apply In_nth_error in Ha as [k Hk].
+    exists k, a. split; auto. now apply existsb_eqb_in.
+  - intros (k & a & H1 & H2). exists (alog a). split; [apply in_map; eapply nth_error_In; eauto|].
+    now apply existsb_eqb_in.
+Qed.
+
+Theorem accepts_of_sim : forall userun ops s, GInv s -> Sim ops s ->
+  Rt_accepts userun ops (observable_log userun s) = true.
+Proof.
+  intros userun ops s G (dn & E & L & M).
+  unfold Rt_accepts, Rt_accepts_why. cbn [g_ops observable_log].
+  assert (mfold mon0 0 ops (olog s) = mfold mon0 0 dn (olog s)) as ->.
+  { rewrite E. apply mfold_short. rewrite <- (g_pc _ G). auto. }
+  set (m := mfold mon0 0 dn (olog s)) in *.
+  pose proof M as [M1 M2 M3 M4 M5 M6 M7 M8 M9 M10].
+  rewrite M10. cbn [negb].
+  assert (check_arbs 0 (g_arbs (observable_log userun s)) (m_arbs m) = true) as ->.
+  { cbn. apply check_arbs_ok; [auto|]. intros j a ma Ha Hm. destruct (g_arb _ G j a Ha) as (I & T1 & T2).
+    pose proof (M2 j a ma Ha Hm) as R. split.
+    - eapply is_prefix_trans; [apply (started_prefix_pre_stop _ _ I)|].
+      destruct (eff_cut m ma) eqn:EC; [apply (r_cut _ _ _ _ R EC)|]. rewrite (r_nocut _ _ _ _ R EC). apply execs_pre_stop_prefix.
+    - intros e He. destruct (ai_id _ _ I e He) as [A B]. split; [rewrite A, T1; reflexivity | rewrite B, T2; reflexivity]. }
+  cbn [negb].
+  assert (check_ret userun m (observable_log userun s) = true) as ->.
+  { unfold check_ret. cbn [g_ret observable_log]. rewrite (gi_ret _ G). destruct (alive s) eqn:A; cbn.
+    - destruct (m_ret m) eqn:X; auto. assert (true = false) as Y by (apply M7; reflexivity). discriminate Y.
+    - destruct (exitc s) as [c|] eqn:X; [|destruct (g_alive _ G A); auto]. cbn.
+      apply existsb_exists. exists c. split; [|apply retv_eqb_refl].
+      assert (first_exit s = Some c) as F by (unfold first_exit; now rewrite X).
+      unfold allowed_codes. apply in_or_app. destruct (M6 c F) as [D|(i & D1 & D2)].
+      + left. rewrite D. left. auto.
+      + right. apply in_map_iff. exists (i, c). split; auto. apply filter_In. split; auto.
+        cbn [fst]. apply (proj2 (started_any_spec userun s i)). exact D2. }
+  cbn [negb]. rewrite M8. cbn [forallb negb].
+  assert (check_waited m (observable_log userun s) = true) as ->.
+  { unfold check_waited. apply forallb_forall. intros [k i] Hw. cbn. destruct (M9 k i Hw) as (a & Ha & Hi).
+    rewrite nth_error_map, Ha. cbn. now apply existsb_eqb_in. }
+  cbn [negb].
+  assert (length (olog s) <=? length ops = true) as ->.
+  { apply Nat.leb_le. rewrite <- (g_pc _ G), <- L, E, app_length. lia. }
+  reflexivity.
+Qed.
+
+(* Soundness of the acceptance predicate that is used as monitor on the implementation's logs:
+   whatever the script and whatever the schedule, the log of the model is accepted. *)
+Theorem Rt_accepts_sound_all : forall userun ops sched,
+  Rt_accepts userun ops (observable_log userun (run ops sched)) = true.
+Proof. intros. destruct (Sim_run ops sched) as [G S]. now apply accepts_of_sim. Qed.
